@@ -68,6 +68,7 @@ impl C07 {
                 indirect_branches: true,
                 divisions: rng.chance(1, 3),
                 broken_guards,
+                wide_guards: broken_guards,
                 addr_base: 0x1000 * (k as u64 + 1),
                 ..GenOpts::default()
             };
